@@ -102,10 +102,41 @@ def knot_dependence(repo: Repo) -> RuleRun:
         fn.node,
         key="slice",
     )
-    # both directions
-    src = ast.unparse(fn.node)
-    handles_rev = any(isinstance(n, ast.Compare) and {ast.unparse(n.left), ast.unparse(n.comparators[0])} == {"param_from", "param_to"} for n in ast.walk(fn.node)) or "sorted" in src
-    r.check(handles_rev, fn, "reversed parameter ranges handled", "get_length does not distinguish param_from > param_to: a reversed range falls back to the chord between the end points", fn.node, key="reversed")
+    # abstract run on a symbolic interpolator whose knots sit at the parameters 0, 25, 50, 75, 100 (integers stand for the
+    # unevenly spaced normalised chord lengths): the curve is sampled at the two end parameters and at every knot strictly
+    # between them, in the direction of travel
+    for p_from, p_to, want in ((10, 80, [10, 25, 50, 75, 80]), (80, 10, [80, 75, 50, 25, 10]), (25, 75, [25, 50, 75]), (60, 70, [60, 70]), (75, 25, [75, 50, 25])):
+        sampled = []
+
+        def lhook(ev, call: ast.Call, name, sampled=sampled):
+            if attr_chain(call.func) in ("self.function", "self.get_point") and call.args:
+                t = ev.eval(call.args[0])
+                sampled.append(t)
+                return Sym(f"pt{t}")
+            last = (name or "").split(".")[-1]
+            if last == "polyline_length" and call.args:
+                return ev.eval(call.args[0])
+            if last in ("array", "asarray") and call.args:
+                return ev.eval(call.args[0])
+            if last == "_get_params":
+                return tuple(ev.eval(a_) for a_ in call.args)
+            return NO_MATCH
+
+        crv = Obj("curve", cls=fn.cls)
+        crv.set("function", Obj("interpolator", params=[0, 25, 50, 75, 100]))
+        crv.set("bounds", (0, 100))
+        crv.set("array", Obj("array"))
+        crv.set("segments", 4)
+        res = _run(Evaluator(repo=repo, module=fn.module, call_hook=lhook), fn, [crv, p_from, p_to])
+        r.check(
+            sampled == want,
+            fn,
+            f"get_length({p_from}, {p_to}) samples the curve at {want}",
+            f"InterpolatedCurveBase.get_length({p_from}, {p_to}) on a curve with knots at 0, 25, 50, 75, 100 samples the parameters {sampled}; expected {want} - both end parameters and every knot strictly "
+            "between them, in the direction from the first to the second parameter (a missing reversal makes the polyline jump back and forth; break points other than the knots cut the curve's corners)",
+            fn.node,
+            key=f"samples:{p_from}->{p_to}",
+        )
     # the interpolator's params honour equalize
     params = repo.func("construct.curves.interpolators.InterpolatorBase.params")
     ok = any(isinstance(n, ast.If) and "equalize" in ast.unparse(n.test) for n in ast.walk(params.node)) and "cumsum" in ast.unparse(params.node)
